@@ -17,6 +17,7 @@ I = z3.IntSort()
 B = z3.BoolSort()
 
 items = z3.Function('items', I, SeqV)            # contents of a sequence handle
+pack = z3.Function('pack', SeqV, I)              # the handle of a sequence value (injective: items(pack(s)) == s)
 ev = z3.Function('ev', Val, Val, Val)            # value of child node on context (PURE_CHILDREN)
 obj_truthy = z3.Function('obj_truthy', I, B)
 val_lt = z3.Function('val_lt', Val, Val, B)      # Python '<' between two non-NULL values of one column type
